@@ -275,17 +275,17 @@ def _std_model(ex, c, args, guard, site):
             return En(mk_int(1, 'isize'), {1: r.v.get(1, [Opaque('e')])}, 'Result'), T
         return En(mk_int(0, 'isize'), {0: []}, 'Option'), T
     # ---- comparisons
-    m = re.match(r'^<(%s|char|bool) as (?:Partial)?Ord>::(cmp|partial_cmp)$' % INT, cs)
+    m = re.match(r'^<&*(%s|char|bool) as (?:Partial)?Ord>::(cmp|partial_cmp)$' % INT, cs)
     if m:
         a = ex.deref(args[0]); b = ex.deref(args[1])
         o = IV(z3.If(a.t < b.t, -1, z3.If(a.t == b.t, 0, 1)), 'i8', -1, 1)
         if m.group(2) == 'cmp': return o, T
         return En(mk_int(1, 'isize'), {1: [o]}, 'Option'), T
-    m = re.match(r'^<(%s|char) as PartialOrd>::(lt|le|gt|ge)$' % INT, cs)
+    m = re.match(r'^<&*(%s|char) as PartialOrd>::(lt|le|gt|ge)$' % INT, cs)
     if m:
         a = ex.deref(args[0]); b = ex.deref(args[1])
         return ex.cmp_iv({'lt': 'Lt', 'le': 'Le', 'gt': 'Gt', 'ge': 'Ge'}[m.group(2)], a, b), T
-    m = re.match(r'^<(%s|char|bool) as PartialEq>::(eq|ne)$' % INT, cs)
+    m = re.match(r'^<&*(%s|char|bool) as PartialEq(?:<&*(?:%s|char|bool)>)?>::(eq|ne)$' % (INT, INT), cs)
     if m:
         a = ex.deref(args[0]); b = ex.deref(args[1])
         return ex.binop('Eq' if m.group(2) == 'eq' else 'Ne', a, b), T
